@@ -1,13 +1,13 @@
 package c03
 
 import (
-	"fmt"
-	"os"
 	"encoding/binary"
 	"encoding/json"
+	"fmt"
 	"math/rand"
 	"net"
 	"net/netip"
+	"os"
 	"testing"
 	"time"
 
@@ -42,11 +42,14 @@ type c05rec struct {
 	Ev   string `json:"ev"` // "dgram"
 	Case int    `json:"case"`
 	Pos  int    `json:"pos"`
-	Il   bool   `json:"il"`   // the outstanding request really was interleaved
+	Il   bool   `json:"il"` // the outstanding request really was interleaved
 	Tr   string `json:"tr"`
 	D    dgram  `json:"d"`
 	Want string `json:"want"` // reaction predicted by the specification ("" = not consumed there)
-	Got  string `json:"got"`  // ok | skip | error | ignored
+	Got  string `json:"got"`  // ok | skip | error | ignored | panic (decided without the client's log, see observe.go)
+	Flt  bool   `json:"flt"`  // the client had the harness's pass-through filter
+	Lg   string `json:"lg"`   // optional: reaction class according to log records with today's names ("" = none seen)
+	Why  string `json:"why"`  // ignored: nocall | closed | unread
 }
 
 func (c *c05case) queue(t *testing.T) ([]dgram, []string) {
@@ -132,14 +135,17 @@ func TestC05(t *testing.T) {
 	out := vio.Create(t)
 	defer out.Close()
 	rng := vio.Rand()
+	// one long-lived client per transport, with and without the pass-through filter
 	nets := map[string]*Net{}
 	for _, k := range []string{"ip", "scion"} {
-		nn, err := NewNetFor(k)
-		if err != nil {
-			t.Fatal(err)
+		for _, f := range []bool{true, false} {
+			nn, err := NewNetWith(k, f)
+			if err != nil {
+				t.Fatal(err)
+			}
+			defer nn.Close()
+			nets[fmt.Sprint(k, f)] = nn
 		}
-		defer nn.Close()
-		nets[k] = nn
 	}
 	var n *Net
 	// second source address for src = "other" (IP)
@@ -171,26 +177,19 @@ func TestC05(t *testing.T) {
 	// finish lets the remaining attempts of a call complete against a genuine server
 	finish := func() {
 		for n.Calling() {
-			select {
-			case a := <-n.Arrivals:
+			a, ok, done := n.WaitArrival(n.Timeout + 2*time.Second)
+			switch {
+			case ok:
 				h, _ := serve(a, 0)
 				n.Deliver(h.Resp, a.Src)
-			case r := <-n.cur:
-				n.cur, n.Last = nil, r
-			case <-time.After(n.Timeout + 2*time.Second):
+			case !done:
 				t.Fatal("client call does not end")
 			}
 		}
 	}
 	drain := func() {
-		for {
-			select {
-			case <-n.Logs:
-			case <-n.Arrivals:
-			default:
-				return
-			}
-		}
+		n.logClass()
+		n.DropArrivals()
 	}
 
 	nok, nil_ := 0, 0
@@ -209,7 +208,8 @@ func TestC05(t *testing.T) {
 		if !realisable {
 			kind = "scion"
 		}
-		n = nets[kind]
+		flt := useFilter(ci / 2 * 3) // both kinds of client meet both transports
+		n = nets[fmt.Sprint(kind, flt)]
 		// bring the client into the wanted mode
 		if c.Il {
 			for i := 0; i < 3 && !n.T.InIL(); i++ {
@@ -227,10 +227,10 @@ func TestC05(t *testing.T) {
 		var errs []string
 		for try := 0; try < 4 && !got; try++ {
 			n.StartMeasure()
-			select {
-			case a = <-n.Arrivals:
+			var ok bool
+			if a, ok, _ = n.WaitArrival(time.Second); ok {
 				got = true
-			case <-time.After(time.Second):
+			} else {
 				// the call ended (or hangs) without a request on the wire: note why and retry
 				n.Wait(n.Timeout + 2*time.Second)
 				errs = append(errs, fmt.Sprint(n.Last.Err))
@@ -250,14 +250,16 @@ func TestC05(t *testing.T) {
 				break
 			}
 			b := concretise(d, h.NTP, &req, reqIl, stale, rng)
-			for len(n.Logs) > 0 {
-				<-n.Logs
-			}
+			var send func() (time.Time, error)
 			if kind == "ip" {
 				if d.Src == "other" {
-					other.WriteToUDPAddrPort(b, a.Src)
-				} else if _, err := n.Deliver(b, a.Src); err != nil {
-					t.Fatal(err)
+					send = func() (time.Time, error) {
+						t0 := time.Now()
+						_, err := other.WriteToUDPAddrPort(b, a.Src)
+						return t0, err
+					}
+				} else {
+					send = func() (time.Time, error) { return n.Deliver(b, a.Src) }
 				}
 			} else {
 				v := ""
@@ -276,16 +278,18 @@ func TestC05(t *testing.T) {
 					m2.SrcHost = netip.MustParseAddr("127.0.0.8") // Wrap swaps: becomes the reply's destination
 					fr = n.T.Wrap(b, &m2, v)
 				}
-				if _, err := n.Deliver(fr, a.Src); err != nil {
-					t.Fatal(err)
-				}
+				send = func() (time.Time, error) { return n.Deliver(fr, a.Src) }
 			}
-			got, _ := awaitReaction(n)
-			out.Emit(c05rec{Ev: "dgram", Case: ci, Pos: pos, Il: reqIl, Tr: kind, D: d, Want: want[pos], Got: got})
+			re, err := n.Watch(a.Src, send)
+			if err != nil {
+				t.Fatal(err)
+			}
+			got := re.Got
+			out.Emit(c05rec{Ev: "dgram", Case: ci, Pos: pos, Il: reqIl, Tr: kind, D: d, Want: want[pos], Got: got, Flt: flt, Lg: re.Log, Why: re.Why})
 			if got == "ok" {
 				nok++
 			}
-			if got == "ok" || got == "error" {
+			if got == "ok" || got == "error" || got == "panic" {
 				pending = false
 			}
 		}
